@@ -32,29 +32,31 @@ type LoopSpec struct {
 }
 
 type Contract struct {
-	Name       string // function name relative to its package, e.g. "(*Entry).Info"
-	PkgPath    string
-	External   bool // declared with "ext": assumed, body never verified
-	Trusted    bool // in-package function whose contract is assumed (listed in evidence)
-	Inline     bool
-	Requires   []*Clause
-	Ensures    []*Clause
-	Assigns    []*Clause
-	HasAssigns bool
-	AssignsAll bool
-	NoGhost    bool // with "assigns everything": the ghost variables are nevertheless unchanged
-	Effects    []*Effect
-	Panics     *Clause // "panics when e"
-	Exits      *Clause // "exits when e"
-	MayPanic   bool    // panic/exit behaviour unspecified
-	NoReturn   bool
-	Loops      map[int]*LoopSpec
-	Props      []string
-	Asserts    []*AtClause
-	Equiv      string
-	Fd         string // "entry" => fd == 0
-	File       string
-	Line       int
+	Name        string // function name relative to its package, e.g. "(*Entry).Info"
+	PkgPath     string
+	External    bool // declared with "ext": assumed, body never verified
+	Trusted     bool // in-package function whose contract is assumed (listed in evidence)
+	Inline      bool
+	Requires    []*Clause
+	Ensures     []*Clause
+	Assigns     []*Clause
+	HasAssigns  bool
+	AssignsAll  bool
+	Auto        bool // "auto": requires every pointer-to-struct parameter to be non-nil
+	NoGhost     bool // with "assigns everything": the ghost variables are nevertheless unchanged
+	Effects     []*Effect
+	Panics      *Clause // "panics when e"
+	Exits       *Clause // "exits when e"
+	MayPanic    bool    // panic/exit behaviour unspecified
+	NoReturn    bool
+	IgnoreDefer bool
+	Loops       map[int]*LoopSpec
+	Props       []string
+	Asserts     []*AtClause
+	Equiv       string
+	Fd          string // "entry" => fd == 0
+	File        string
+	Line        int
 }
 
 // AtClause: assertion attached to a program point: "at panic", "at exit", "at call <callee>".
@@ -118,6 +120,9 @@ func ParseContractFile(path, pkgPath string) ([]*Contract, error) {
 			cur = &Contract{Name: rest, PkgPath: pkgPath, External: kw == "ext", Loops: map[int]*LoopSpec{}, File: path, Line: lineNo}
 			if kw == "ext" {
 				cur.PkgPath = ""
+			} else if i := strings.Index(rest, "::"); i > 0 {
+				// contract on a function of another package (e.g. the reference implementation bytes::(*Buffer).Len)
+				cur.PkgPath, cur.Name = rest[:i], rest[i+2:]
 			}
 			out = append(out, cur)
 			continue
@@ -165,6 +170,14 @@ func ParseContractFile(path, pkgPath string) ([]*Contract, error) {
 			}
 			cur.Effects = append(cur.Effects, &Effect{Target: strings.TrimSpace(parts[0]), Src: rest, Expr: e})
 		case "noghost":
+			cur.NoGhost = true
+		case "ignoredefer":
+			cur.IgnoreDefer = true
+		case "auto":
+			// synthesized frame: may write anything except ghost state; pointer parameters are non-nil
+			cur.Auto = true
+			cur.AssignsAll = true
+			cur.HasAssigns = true
 			cur.NoGhost = true
 		case "maypanic":
 			cur.MayPanic = true
